@@ -159,6 +159,7 @@ structure Run where
   snaps : List Snap
   esnaps : List (String × (Nat → F))
   hang : Bool := false
+  notes : List String := []     -- extra output lines (certificate verdicts of the operators)
 
 /-! ### what `_save` copies: driven by the member list regenerated from flow_snapshot.hpp -/
 
@@ -301,7 +302,7 @@ def callUpdate (c : Call) (st : St) (mstHook : Hook) :
         [c06, line "cert_c01" (if Fs.ImplCheck.checkFlow S t (nbIdx st.topo) mask isBase zi (!basic) then "1" else "0")]
       | _, _ => [c06]
   ({ st with ops := ops, g := r.g, mask := mask, isBase := isBase, snaps := r.snaps, implT := implT },
-   if r.hang then ["O hang"] else outs ++ certs)
+   if r.hang then ["O hang"] else outs ++ certs ++ r.notes)
 
 def callAcc (pre : String) (c : Call) (n : Nat) (g : Graph F) : List String :=
   let src := fromList 0.0 (((findInp c (pre ++ "src")).getD []).map hexF)
